@@ -124,8 +124,9 @@ Definition h_setcode_nil : list op :=
   [SetCode 0 c1; Flush; Commit 1; SetCode 0 None; GetCode 0; Flush; Commit 2; GetCode 0; Reopen; GetCode 0].
 Lemma setcode_nil_refuted :
   map (fun i => nth i (snd (run E0 cfg_fixed st0 h_setcode_nil)) ONone) [4; 7; 9]%nat =
-  [OS (SVal c1); OS (SVal None); OS (SVal c1)].
-Proof. vm_compute. reflexivity. Qed.
+  [OS (SVal c1); OS (SVal None); OS (SVal c1)] /\
+  pb_model false cfg_fixed h_setcode_nil = Some 4.
+Proof. split; vm_compute; reflexivity. Qed.
 
 (** C13: GetCommittedState returns the zero hash for every non-nil committed value *)
 Definition h_getcommitted : list op := [SetSt 0 ka v1; SetBal 0 5; Flush; Commit 1; GetCommitted 0 ka].
